@@ -83,6 +83,13 @@ pub(crate) const UNREPRESENTABLE: u8 = 3;
 /// that finds a correct single query for such a pair still satisfies the property (the
 /// semantic clauses above already forbid a wrong Success or Empty there).
 pub(crate) fn check_merge(q1: &MediaQuery, q2: &MediaQuery, expect: u8) {
+    check_merge_text(q1, q2, expect, false)
+}
+
+/// `keeps_only`: one of the inputs carries the `only` modifier (which has no effect on
+/// matching, so the semantic clauses cannot see it): the statement requires query text
+/// to be preserved, so a merged query must still carry it.
+pub(crate) fn check_merge_text(q1: &MediaQuery, q2: &MediaQuery, expect: u8, keeps_only: bool) {
     let e = any_env();
     let both = sat(q1, e) && sat(q2, e);
     let mut order = 0;
@@ -92,6 +99,9 @@ pub(crate) fn check_merge(q1: &MediaQuery, q2: &MediaQuery, expect: u8) {
             MediaQueryMergeResult::Success(m) => {
                 assert!(sat(m, e) == both, "C17/K/merge: merged query is not the intersection of the two queries");
                 assert!(m.conjunction, "C17/K/merge: merged query is a conjunction");
+                if keeps_only {
+                    assert!(m.modifier.as_ref().map_or(false, |x| x.to_ascii_lowercase() == "only"), "C17/K/merge: the `only` modifier was lost");
+                }
             }
             MediaQueryMergeResult::Empty => {
                 assert!(!both, "C17/K/merge: Empty although some environment satisfies both queries");
